@@ -457,9 +457,16 @@ def gen(r, risky=0.15):
         bn = g.camel(types, suffix_from=types)
         bt = set()
         lines += ["bits %s:" % bn, "  0 [+4] UInt %s" % g.snake(bt), "  4 [+1] Flag %s" % g.snake(bt),
-                  "  5 [+11] Int %s" % g.snake(bt), "  let %s = %d" % (g.snake(bt), r.randint(0, 9)), ""]
+                  "  5 [+11] Int %s" % g.snake(bt), "  let %s = %d" % (g.snake(bt), r.randint(0, 9))]
+        nb = 2
+        if r.random() < 0.6:
+            # an array *inside* the bits (bit-addressed elements: kAddressableUnitSize == 1)
+            lines.append("  16 [+8] %s:%d[%d] %s" % (r.choice(["UInt", "Int"]), *r.choice([(4, 2), (2, 4), (8, 1)]), g.snake(bt)))
+            nb = 3
+            g.feat("array_inside_bits")
+        lines.append("")
         hn = g.camel(types)
-        lines += ["struct %s:" % hn, "  0 [+2] %s %s" % (bn, "field"), "  2 [+4] %s[2] %s" % (bn, "fields"), ""]
+        lines += ["struct %s:" % hn, "  0 [+%d] %s %s" % (nb, bn, "field"), "  %d [+%d] %s[2] %s" % (nb, 2 * nb, bn, "fields"), ""]
         g.feat("top_level_bits")
         g.feat("array_in_struct_of_bits")
     files = {"m.emb": "\n".join(lines) + "\n"}
